@@ -1,5 +1,4 @@
 SPECIFICATION TSpec
 CONSTRAINT Progress
-INVARIANT Inv
 POSTCONDITION Accepted
 CHECK_DEADLOCK FALSE
